@@ -469,3 +469,162 @@ pub fn random_lat(rng: &mut Rng, tab: &[(i128, u32)]) -> i64 {
         }
     }
 }
+
+// ---------------------------------------------------------------------------------------------------
+// Zone-index oracle (Props/C04 `zone_indices_f64exact`, Props/C05 `local_*_float_close`): the zone indices
+// `j`, `m` (and the local decoders' `j`, `m`) recomputed in exact INTEGER arithmetic, compared with the ones
+// the real f64 code used, as read off its output (`lat / d_lat - cpr_lat` and `lon / d_lon - cpr_lon` are
+// integers up to 1e-9 and name the zone).  A decision whose exact value lies within 1e-11 of its boundary
+// is counted (`…:boundary`) and not judged — that is the exception the theorems state.
+
+const IDX_EPS: f64 = 1e-9;
+const NEAR: i128 = 100_000_000_000; // 1e11: "within 1e-11"
+
+/// is |num/den| (den > 0) within 1e-11 of a transition latitude, of 90 or of 270, without being equal to it?
+fn lat_near_boundary(tab: &[(i128, u32)], num: i128, den: i128) -> bool {
+    let a = num.abs();
+    let mut marks: Vec<(i128, i128)> = tab.iter().map(|(k, _)| (*k, NL_SCALE)).collect();
+    marks.push((90, 1));
+    marks.push((270, 1));
+    marks.iter().any(|(k, s)| {
+        let d = (a * s - k * den).abs(); // |a/den - k/s| = d / (den s)
+        d != 0 && d * NEAR < den * s
+    })
+}
+
+/// the zone index an output coordinate lies in: `x / d - cpr` must be an integer up to 1e-9
+fn zone_of(x: f64, zones_per_turn: f64, full: f64, field: u32) -> Option<i64> {
+    let t = x * zones_per_turn / full - field as f64 / 131072.0;
+    let r = t.round();
+    if (t - r).abs() < IDX_EPS * t.abs().max(1.0) {
+        Some(r as i64)
+    } else {
+        None
+    }
+}
+
+/// `airborne_position` on (even, odd) = (`me`, `mo`) = (yz, xz) pairs, `latest` = parity of the latest report
+pub fn check_global_indices(out: &mut Out, op: &str, tab: &[(i128, u32)], me: (u32, u32), mo: (u32, u32), latest: u32, r: &Option<Position>) {
+    let (yz0, xz0, yz1, xz1) = (me.0 as i128, me.1 as i128, mo.0 as i128, mo.1 as i128);
+    let p17 = 131072i128;
+    let j = (59 * yz0 - 60 * yz1 + 65536).div_euclid(p17);
+    let (re, ro) = (j.rem_euclid(60), j.rem_euclid(59));
+    // lat_even = 6 (re + yz0/2^17), lat_odd = 360/59 (ro + yz1/2^17), each minus 360 when >= 270
+    let (mut ne, de) = (6 * (re * p17 + yz0), p17);
+    if ne >= 270 * de {
+        ne -= 360 * de;
+    }
+    let (mut no, dod) = (360 * (ro * p17 + yz1), 59 * p17);
+    let odd_raw = no;
+    if no >= 270 * dod {
+        no -= 360 * dod;
+    }
+    let in_range = ne.abs() <= 90 * de && no.abs() <= 90 * dod;
+    let (nle, nlo) = (nl_spec(tab, ne, de), nl_spec(tab, no, dod));
+    let boundary = lat_near_boundary(tab, no, dod) || lat_near_boundary(tab, odd_raw, dod);
+    let expect_none = !in_range || nle != nlo;
+    if expect_none != r.is_none() {
+        if boundary {
+            out.stat("zone-index:global:boundary");
+        } else {
+            out.fail(
+                "zone-decision",
+                op,
+                &format!("integer arithmetic: j={j} lat_even={ne}/{de} (NL {nle}) lat_odd={no}/{dod} (NL {nlo}) in_range={in_range} => {}; the f64 code returned {}", if expect_none { "None" } else { "Some" }, if r.is_none() { "None" } else { "Some" }),
+            );
+        }
+        return;
+    }
+    let Some(p) = r else {
+        out.stat("zone-index:global:none");
+        return;
+    };
+    // latitude zone: j mod 60 (latest even) / j mod 59 (latest odd)
+    let latpos = if p.latitude < 0.0 { p.latitude + 360.0 } else { p.latitude };
+    let (zones, field, want) = if latest == 0 { (60.0, me.0, re) } else { (59.0, mo.0, ro) };
+    match zone_of(latpos, zones, 360.0, field) {
+        Some(z) if (z as i128).rem_euclid(zones as i128) == want => out.stat("zone-index:global:j-ok"),
+        z => out.fail("zone-index-j", op, &format!("integer arithmetic: j={j}, j mod {zones}={want}; the returned latitude {} lies in zone {z:?}", p.latitude)),
+    }
+    // longitude zone: m mod ni, with nl of the latest report's latitude
+    let (nl, pp, c) = if latest == 0 { (nle as i128, 0i128, me.1) } else { (nlo as i128, 1, mo.1) };
+    let m = (xz0 * (nl - 1) - xz1 * nl + 65536).div_euclid(p17);
+    let ni = std::cmp::max(nl - pp, 1);
+    let lonpos = if p.longitude < 0.0 { p.longitude + 360.0 } else { p.longitude };
+    match zone_of(lonpos, ni as f64, 360.0, c) {
+        Some(z) if (z as i128).rem_euclid(ni) == m.rem_euclid(ni) => out.stat("zone-index:global:m-ok"),
+        z => {
+            if latest == 1 && boundary {
+                out.stat("zone-index:global:boundary");
+            } else {
+                out.fail("zone-index-m", op, &format!("integer arithmetic: nl={nl} ni={ni} m={m}, m mod ni={}; the returned longitude {} lies in zone {z:?}", m.rem_euclid(ni), p.longitude))
+            }
+        }
+    }
+}
+
+/// `airborne_position_with_reference` (`surf = false`) / `surface_position_with_reference`: report of parity `p`
+/// with fields (yz, xz), reference (ra, rb)/2^32 degrees, result `r`
+#[allow(clippy::too_many_arguments)]
+pub fn check_local_indices(out: &mut Out, op: &str, tab: &[(i128, u32)], surf: bool, p: u32, yz: u32, xz: u32, ra: i64, rb: i64, r: &Option<Position>) {
+    let full: i128 = if surf { 90 } else { 360 };
+    let n = (60 - p) as i128;
+    let (p17, u) = (131072i128, UNIT as i128);
+    // floor(1/2 + ref/d - cpr) with ref = a/2^32, d = full/k:  (full 2^48 + a k 2^17 - field full 2^32) / (full 2^49)
+    // `exact_tie_ok`: an argument that is EXACTLY an integer is still judged (even latitude: d = 6 or 1.5 and the
+    // quotient ref/d is then a binary64 value, so the f64 floor is the exact one); otherwise an exact tie is the
+    // boundary case of the theorem (distance 0 from an integer).
+    let floor_arg = |a: i64, k: i128, field: u32, exact_tie_ok: bool| -> (i128, bool) {
+        let num = full * (1i128 << 48) + a as i128 * k * p17 - field as i128 * full * u;
+        let den = full * (1i128 << 49);
+        let rem = num.rem_euclid(den);
+        let near = if rem == 0 { !exact_tie_ok } else { rem * NEAR < den || (den - rem) * NEAR < den };
+        (num.div_euclid(den), near)
+    };
+    let (j, near_j) = floor_arg(ra, n, yz, p == 0);
+    let ff = full as f64;
+    let Some(pos) = r else {
+        // the refusal, in integer arithmetic: with j = floor(1/2 + ref/d - cpr) the latitude is within half a zone
+        // of the reference (Props/C05 `local_near_ref`), and so is the longitude; `None` is right only when the
+        // latitude leaves [-90, 90] — or on a boundary (a tie, an argument within 1e-11 of an integer, ...)
+        let (ln, ld) = (full * (j * p17 + yz as i128), n * p17);
+        let nl = nl_spec(tab, ln, ld) as i128;
+        let ni = std::cmp::max(nl - p as i128, 1);
+        let (_, near_m) = floor_arg(rb, ni, xz, false);
+        if ln.abs() > 90 * ld {
+            out.stat("zone-index:local:none-out-of-range");
+        } else if near_j || near_m || lat_near_boundary(tab, ln, ld) {
+            out.stat("zone-index:local:boundary");
+        } else {
+            out.fail("zone-decision", op, &format!("integer arithmetic: j={j}, latitude {ln}/{ld} in [-90, 90], nl={nl}, no tie: a position within half a zone of the reference exists; the f64 code returned None"));
+        }
+        return;
+    };
+    match zone_of(pos.latitude, n as f64, ff, yz) {
+        Some(z) if z as i128 == j => out.stat("zone-index:local:j-ok"),
+        z => {
+            if near_j {
+                out.stat("zone-index:local:boundary");
+            } else {
+                out.fail("zone-index-j", op, &format!("integer arithmetic: j={j}; the returned latitude {} lies in zone {z:?}", pos.latitude));
+            }
+            return;
+        }
+    }
+    // lat = full (j 2^17 + yz) / (n 2^17) exactly
+    let (ln, ld) = (full * (j * p17 + yz as i128), n * p17);
+    let nl = nl_spec(tab, ln, ld) as i128; // nl() is applied to the decoded latitude in both decoders
+    let ni = std::cmp::max(nl - p as i128, 1);
+    let near_nl = p == 1 && lat_near_boundary(tab, ln, ld);
+    let (m, near_m) = floor_arg(rb, ni, xz, false);
+    match zone_of(pos.longitude, ni as f64, ff, xz) {
+        Some(z) if z as i128 == m => out.stat("zone-index:local:m-ok"),
+        z => {
+            if near_m || near_nl {
+                out.stat("zone-index:local:boundary");
+            } else {
+                out.fail("zone-index-m", op, &format!("integer arithmetic: nl={nl} ni={ni} m={m}; the returned longitude {} lies in zone {z:?}", pos.longitude));
+            }
+        }
+    }
+}
